@@ -62,6 +62,7 @@ using AnalyserEquationAstWeakPtr = std::weak_ptr<AnalyserEquationAst>; /**< Type
 using AnalyserEquationWeakPtr = std::weak_ptr<AnalyserEquation>; /**< Type definition for weak analyser equation pointer. */
 using ComponentWeakPtr = std::weak_ptr<Component>; /**< Type definition for weak component pointer. */
 using ImportSourceWeakPtr = std::weak_ptr<ImportSource>; /**< Type definition for weak import source pointer. */
+using ImportSourceMap = std::map<ImportSourcePtr, ImportSourcePtr>; /**< Type definition for map of import source to its clone. */
 using ModelWeakPtr = std::weak_ptr<Model>; /**< Type definition for weak model pointer. */
 using ResetWeakPtr = std::weak_ptr<Reset>; /**< Type definition for weak reset pointer. */
 using UnitsWeakPtr = std::weak_ptr<Units>; /**< Type definition for weak units pointer. */
